@@ -28,6 +28,10 @@ def as_kind(X, kind):
 	"""Same one-hot values as another dtype / memory layout."""
 	if kind == "int8":
 		return X.to(torch.int8)
+	if kind == "float16":
+		return X.to(torch.float16)
+	if kind == "bfloat16":
+		return X.to(torch.bfloat16)
 	if kind == "float64":
 		return X.to(torch.float64)
 	if kind == "strided":
@@ -213,8 +217,8 @@ class C02(runner.Check):
 				"rng_seed": S("schedule").subseed(), "random_state": r.randint(0, 10 ** 6),
 				"xkind": r.wchoice(["float32", "int8", "float64", "strided"], [4, 2, 1, 1])}
 		# hist
-		L = r.wchoice([r.randint(4, 40), r.randint(300, 2500), r.randint(65600, 70000)],
-			[48, 4, 1])
+		L = r.wchoice([r.randint(4, 40), r.randint(300, 2500), r.randint(65600, 70000),
+			r.randint(8000, 13000)], [48, 4, 1, 2])
 		if L > 40:
 			A = r.choice([2, 2, 4])
 		pool = [gen_sequence(r, A, L) for _ in range(r.randint(1, 3) if L < 60000 else 1)]
@@ -236,7 +240,8 @@ class C02(runner.Check):
 				if kind == "mono" and op["rs"] < 0:
 					op["rs"] = -op["rs"]        # RandomState rejects negative seeds
 				op["seed_type"] = r.wchoice(["int", "numpy.int64", "numpy.int32"], [5, 1, 1])
-				op["xkind"] = r.wchoice(["float32", "int8", "float64", "strided"], [4, 2, 1, 1])
+				op["xkind"] = r.wchoice(["float32", "int8", "float64", "strided", "float16",
+					"bfloat16"], [8, 4, 2, 2, 1, 1])
 				if r.chance(0.35):
 					# a second thread touching process-global generators in the middle
 					# of the call (statement-level pre-emption points)
@@ -512,7 +517,7 @@ class C02(runner.Check):
 				if bad:
 					out.violate(bad[0], bad[1], key=bad[0])
 					break
-				yb = (str(Y.dtype), tuple(Y.shape), Y.numpy().tobytes())
+				yb = (str(Y.dtype), tuple(Y.shape), Y.to(torch.float32).numpy().tobytes())
 				prev = seen.get(key)
 				if prev is not None:
 					out.bump("probe.repeated_call")
